@@ -7,8 +7,8 @@
    checked to be such words by the correspondence run).
    [init_ok c s0]: before the run output i exists (complete) iff [c_so c i],
    the temporary name i is absent unless [c_st c i], inputs are complete. *)
-From Coq Require Import List Bool Arith NArith.
-From Verif Require Import Model.C10 Proofs.C10.
+From Coq Require Import List Bool Arith NArith ZArith.
+From Verif Require Import Model.C10 Proofs.C10 Model.C10_paths Proofs.C10_paths.
 Import ListNotations.
 
 (* For every task, every protocol word t (any number of writes, append
@@ -76,3 +76,34 @@ Theorem C10_grammar_words_safe :
     \/ view (wcount 0 t) (s (POut 0)) = VComplete.
 Proof. exact file_word_safe. Qed.
 Print Assumptions C10_grammar_words_safe.
+
+(* Names (dclab/cli/common.py:setup_task_paths, pathlib semantics; a name is
+   the list of its character codes): the temporary name computed for any
+   non-empty requested output name is the (suffix-normalised) output name
+   followed by "~". *)
+Theorem C10_temp_name_is_output_tilde :
+  forall name : list Z,
+    name <> [] ->
+    temp_of (normalize_out name) = normalize_out name ++ [tilde].
+Proof. exact temp_is_out_tilde. Qed.
+Print Assumptions C10_temp_name_is_output_tilde.
+
+(* Hence different outputs get different temporary names, and a temporary
+   name never coincides with a requested output name ... *)
+Theorem C10_temp_names_distinct :
+  forall n1 n2 : list Z,
+    n1 <> [] -> n2 <> [] ->
+    (temp_of (normalize_out n1) = temp_of (normalize_out n2) ->
+     normalize_out n1 = normalize_out n2)
+    /\ temp_of (normalize_out n1) <> normalize_out n2.
+Proof. exact temp_names_distinct. Qed.
+Print Assumptions C10_temp_names_distinct.
+
+(* ... nor with an input file name the tasks accept (suffix .rtdc or .tdms):
+   the paths PIn / POut / PTmp of the protocol model are distinct files. *)
+Theorem C10_temp_name_not_an_input :
+  forall name inp : list Z,
+    name <> [] -> allowed_input inp = true ->
+    temp_of (normalize_out name) <> inp.
+Proof. exact temp_not_an_input. Qed.
+Print Assumptions C10_temp_name_not_an_input.
